@@ -42,28 +42,96 @@ def tok_fragment_multiplier(repo, tier="quick"):
                   reason="the multiplier is not counted as an atom")]
 
 
-def sib_fragment_dialect(repo, tier="quick"):
-    """D7: the annotation text of a fragment node means what the dialect of the fragment's resolution says (q, w for coarse
-    nodes; w, x for atoms).  A tokenizer that applies one fixed dialect to every fragment cannot honour both."""
+def _dialect_kind(repo, module, name):
+    """'atom' / 'coarse' / None for a name that resolves to a partial of _parse_dialect_string: by the symbols its
+    arg_to_fullname table maps (x: chirality of atoms; q: charge of coarse nodes)."""
+    t = repo.resolve_name(module, name)
+    if t is None or not getattr(t, "bound", None):
+        return None
+    tab = t.bound.get("arg_to_fullname")
+    if not isinstance(tab, ast.Dict):
+        return None
+    keys = {k.value for k in tab.keys if isinstance(k, ast.Constant)}
+    if "x" in keys and "q" not in keys:
+        return "atom"
+    if "q" in keys and "x" not in keys:
+        return "coarse"
+    return None
+
+
+def fragment_parser_selection(repo):
+    """How strip_bonding_descriptors chooses the parser of a node's annotation text.  Returns (call sites, verdict, text):
+    'selected' (by the resolution flag, atoms with the atomistic dialect and coarse nodes with the coarse one), 'swapped',
+    'single:<kind>' (one fixed dialect for all fragments), 'unknown'."""
     fi = repo.function("read_fragments:strip_bonding_descriptors")
     fl = fi.flow
-    oid = "SIB.S6-fragment-dialect"
-    parsers = set()
     sites = []
     for call, nid in fl.calls():
-        t = repo.resolve_call(fi, call)
-        name = getattr(t, "name", "") or ""
-        if "node_parser" in name or "parse_graph_base_node" in name or name.endswith("_parse_dialect_string"):
-            parsers.add(name)
-            sites.append((call, nid))
+        f = call.func
+        if isinstance(f, ast.Name) and len(call.args) == 1 and not call.keywords:
+            kind = _dialect_kind(repo, fi.module, f.id) if not fl.is_local(f.id) else None
+            if kind is not None:
+                sites.append((call, nid, "single:" + kind, f.id))
+            elif fl.is_local(f.id):
+                # a local that holds one of two parsers, chosen by a parameter
+                vals = [d.value for d in fl.defs if d.var == f.id and d.kind == "assign" and d.value is not None]
+                for v in vals:
+                    if isinstance(v, ast.Name) and len(vals) == 1 and _dialect_kind(repo, fi.module, v.id) is not None:
+                        sites.append((call, nid, "single:" + _dialect_kind(repo, fi.module, v.id), v.id))
+                    if isinstance(v, ast.IfExp) and isinstance(v.body, ast.Name) and isinstance(v.orelse, ast.Name):
+                        test, pol = v.test, True
+                        if isinstance(test, ast.UnaryOp) and isinstance(test.op, ast.Not):
+                            test, pol = test.operand, False
+                        if isinstance(test, ast.Name) and test.id in fi.params:
+                            kt, kf = _dialect_kind(repo, fi.module, v.body.id), _dialect_kind(repo, fi.module, v.orelse.id)
+                            if not pol:
+                                kt, kf = kf, kt
+                            if kt == "atom" and kf == "coarse":
+                                sites.append((call, nid, "selected", "%s if %s else %s" % (v.body.id, ast.unparse(v.test), v.orelse.id)))
+                            elif kt == "coarse" and kf == "atom":
+                                sites.append((call, nid, "swapped", "%s if %s else %s" % (v.body.id, ast.unparse(v.test), v.orelse.id)))
+    # the same choice written as an if statement around two calls
+    if not sites:
+        for call, nid in fl.calls():
+            f = call.func
+            if isinstance(f, ast.Name) and (("node_parser" in f.id) or ("parse" in f.id and "dialect" in f.id)):
+                sites.append((call, nid, "unknown", f.id))
+    return fi, sites
+
+
+def sib_fragment_dialect(repo, tier="quick"):
+    """D7: the annotation text of a fragment node means what the dialect of the fragment's resolution says (q, w for coarse
+    nodes; w, x for atoms).  A tokenizer that applies one fixed dialect to every fragment cannot honour both (repaired in
+    /repo: "fix: annotations of coarse fragment nodes are read with the coarse dialect")."""
+    oid = "SIB.S6-fragment-dialect"
+    fi, sites = fragment_parser_selection(repo)
     need(sites, "anchor vanished: strip_bonding_descriptors no longer parses node annotations", fi)
-    flagged = any(p in ("all_atom", "dialect", "node_parser", "parser", "resolution") for p in fi.params)
-    if len(parsers) >= 2 or flagged:
-        return [ob_ok(oid, fi, sites[0][0], construct="annotation dialect chosen by the fragment's resolution", instance="dialect",
+    kinds = {s[2] for s in sites}
+    call = sites[0][0]
+    # the flag has to arrive: fragment_iter hands its own resolution flag on
+    it = repo.function("read_fragments:fragment_iter")
+    forwarded = False
+    for c, nid in it.flow.calls():
+        t = repo.resolve_call(it, c)
+        if t is not None and t.kind == "repo" and t.name.endswith(":strip_bonding_descriptors"):
+            flags = [a for a in c.args[1:]] + [k.value for k in c.keywords]
+            forwarded = any(isinstance(a, ast.Name) and a.id in it.params for a in flags)
+    if kinds == {"selected"} and forwarded:
+        return [ob_ok(oid, fi, call, construct="annotation dialect chosen by the fragment's resolution: %s" % sites[0][3], instance="dialect",
                       reason="coarse fragment nodes and atoms are read with their own dialects")]
-    return [ob_fail(oid, fi, sites[0][0], construct="every fragment node is parsed with %s" % sorted(parsers)[0].split(":")[-1], instance="dialect",
-                    reason="the nodes of coarse fragments are read with the atomistic dialect (w, x): `q=` becomes a free key, the first positional value "
-                           "is taken as weight, a non-numeric charge is accepted")]
+    if "swapped" in kinds:
+        return [ob_fail(oid, fi, call, construct="dialects chosen the wrong way round: %s" % sites[0][3], instance="dialect",
+                        reason="atoms are read with the coarse dialect (q, w) and coarse nodes with the atomistic one (w, x)")]
+    if kinds == {"selected"} and not forwarded:
+        return [ob_fail(oid, fi, call, construct="fragment_iter does not hand its resolution flag to strip_bonding_descriptors", instance="dialect",
+                        reason="the default (all-atom) dialect is used for coarse fragments as well")]
+    single = [k for k in kinds if k.startswith("single:")]
+    if single:
+        return [ob_fail(oid, fi, call, construct="every fragment node is parsed with %s" % sites[0][3], instance="dialect",
+                        reason="one fixed dialect for all fragments: with the atomistic one `q=` of a coarse node becomes a free key, the first positional value "
+                               "is taken as weight and a non-numeric charge is accepted; with the coarse one the chirality of atoms is lost")]
+    return [ob_undecided(oid, fi, call, construct="annotation parser %s" % sites[0][3], instance="dialect",
+                         reason="the rule cannot see which dialect is used for which kind of fragment")]
 
 
 def trip_branch_close(repo, tier="quick"):
